@@ -11,7 +11,7 @@ import (
 func init() {
 	register(&Check{
 		ID: "C16", Level: "exploration", QuickSecs: 150, ThoroughSecs: 1200,
-		Rule:        "grammars over {'a',\"\",[ab],.} x {?,*,+,&,!} x seq/choice up to N nodes (quick 4, thorough 5) INCLUDING repetitions with nullable bodies (\"\"*, (&'a')+, ('a'?)*), a recovery loop and left-recursive rules generated with -support-left-recursion (direct, indirect, and nullable-body repetitions inside leader and non-leader rules of a cycle); inputs over {a,b} up to L=2 (3); option sets {Memoize, Debug, Recover(false), AllowInvalidUTF8} (all 16 combinations quick: 8); for each the unbounded run (tick-capped) gives c = expressions evaluated, then EVERY budget n in 1..min(c,cap)+1 is run: the call returns, evaluates at most n expressions, reports 'max number of expressions parsed' (as the panic value under Recover(false)) iff the unbounded run needs more than n, and otherwise equals the unbounded observation; without Memoize/left recursion the unbounded count itself must equal the reference interpreter's number of expression evaluations (nothing escapes the budget). Non-trivial = a budget that is exhausted.",
+		Rule:        "grammars over {'a',\"\",[ab],.} x {?,*,+,&,!} x seq/choice up to N nodes (quick 4, thorough 5) INCLUDING repetitions with nullable bodies (\"\"*, (&'a')+, ('a'?)*), a recovery loop and left-recursive rules generated with -support-left-recursion (direct, indirect, and nullable-body repetitions inside leader and non-leader rules of a cycle); inputs over {a,b} up to L=2 (3); option sets {Memoize, Debug, Recover(false), AllowInvalidUTF8} (all 16 combinations quick: 8); for each the unbounded run (tick-capped) gives c = expressions evaluated, then EVERY budget n in 1..min(c,cap)+1 is run: the call returns, evaluates at most n expressions, reports 'max number of expressions parsed' (as the panic value under Recover(false)) iff the unbounded run needs more than n, and otherwise equals the unbounded observation; without Memoize/left recursion the unbounded count itself must equal the reference interpreter's number of expression evaluations (nothing escapes the budget). For the -optimize-parser build of every grammar the budgets {1, c/2, c-1, c, c+1} are run, each twice in one process (first and second call must agree; exhausted iff the standard build needs more). Non-trivial = a budget that is exhausted.",
 		Assumptions: []string{"E1 loader", "tick cap (loop iterations / function entries) stands in for 'never returns'"},
 		Run:         runC16,
 	})
@@ -76,7 +76,54 @@ func runC16(c *ShardCtx) {
 		if b == nil {
 			continue
 		}
+		// the -optimize-parser build of the same grammar (no Statistics there: the count of the
+		// standard build tells which budgets are exhausted), each budget also on a SECOND call of
+		// the same process
+		genOpt := gc.gen
+		genOpt.Optimize = true
+		bOpt := buildOrCount(c, text, genOpt)
 		for _, in := range inputs {
+			if bOpt != nil {
+				o0 := rtapi.RunOpts{Statistics: true, TickCap: 20000}
+				cnt0 := b.Run(in, &o0, nil)
+				if !cnt0.Diverged {
+					cnt := int(cnt0.ExprCnt)
+					ou := rtapi.RunOpts{TickCap: 20000}
+					baseOpt := bOpt.Run(in, &ou, nil)
+					for _, n := range []int{1, cnt / 2, cnt - 1, cnt, cnt + 1} {
+						if n < 1 || baseOpt.Diverged {
+							continue
+						}
+						o := rtapi.RunOpts{MaxExpr: uint64(n), TickCap: 5000}
+						first := bOpt.Run(in, &o, nil)
+						o2 := o
+						second := bOpt.RunWarm(in, &o2, nil)
+						c.Res.Evaluations += 2
+						desc := ""
+						hasErr := func(ob *rtapi.Obs) bool {
+							for _, e := range ob.Errs {
+								if e.InnerKind == "maxexpr" {
+									return true
+								}
+							}
+							return ob.Panic == "maxexpr"
+						}
+						switch {
+						case first.Diverged || second.Diverged:
+							desc = fmt.Sprintf("-optimize-parser: Parse with MaxExpressions(%d) did not return", n)
+						case cnt > n && !hasErr(first):
+							desc = fmt.Sprintf("-optimize-parser: MaxExpressions(%d) exhausted (the parse needs %d) but no budget error: %s %v", n, cnt, first.Val, msgs(first))
+						case cnt <= n && (first.Val != baseOpt.Val || fmt.Sprint(msgs(first)) != fmt.Sprint(msgs(baseOpt))):
+							desc = fmt.Sprintf("-optimize-parser: MaxExpressions(%d) not exhausted (needs %d) but result differs: %s %v vs unbounded %s %v", n, cnt, first.Val, msgs(first), baseOpt.Val, msgs(baseOpt))
+						case first.Val != second.Val || fmt.Sprint(msgs(first)) != fmt.Sprint(msgs(second)):
+							desc = fmt.Sprintf("-optimize-parser: MaxExpressions(%d): the second call in the same process returns %s %v, the first %s %v", n, second.Val, msgs(second), first.Val, msgs(first))
+						}
+						if desc != "" {
+							c.Report(Violation{Desc: desc, Grammar: text, Gen: genOpt.String(), Input: string(in), InputHex: hexOf(in), Opts: optsString(&o), Diffs: []string{desc}}, "")
+						}
+					}
+				}
+			}
 			for _, os := range optSets {
 				o0 := os
 				o0.TickCap = 20000
@@ -149,6 +196,15 @@ func runC16(c *ShardCtx) {
 						diffs = append(diffs, fmt.Sprintf("MaxExpressions(%d) not exhausted (needs %d) but result differs: %s %v vs unbounded %s %v", n, cnt, obs.Val, msgs(obs), base.Val, msgs(base)))
 					case exhausted && o.NoRecover && obs.Panic != "maxexpr":
 						diffs = append(diffs, fmt.Sprintf("Recover(false): want the budget error as panic value, got %q", obs.Panic))
+					}
+					if n == top+1 && !obs.Diverged && len(diffs) == 0 {
+						ow := os
+						ow.MaxExpr, ow.TickCap = uint64(n), 5000
+						again := b.RunWarm(in, &ow, nil)
+						c.Res.Evaluations++
+						if again.Val != obs.Val || fmt.Sprint(msgs(again)) != fmt.Sprint(msgs(obs)) || again.Panic != obs.Panic {
+							diffs = append(diffs, fmt.Sprintf("MaxExpressions(%d): the second call in the same process returns %s %v %q, the first %s %v %q", n, again.Val, msgs(again), again.Panic, obs.Val, msgs(obs), obs.Panic))
+						}
 					}
 					if n == 2 && len(in) == 1 {
 						c.Sample(map[string]any{"grammar": oneLine(text), "input": string(in), "opts": optsString(&o), "unbounded_exprs": cnt, "budget": n, "errors": msgs(obs)})
